@@ -1,0 +1,17 @@
+//go:build verif
+
+package x509util
+
+// Machine-checked contracts for package revocation/internal/x509util (checked by /verif/govc; comment-only file).
+
+//@ import "crypto/x509"
+//@ import "crypto/x509/pkix"
+//@ import "encoding/asn1"
+//@ import "github.com/notaryproject/notation-core-go/revocation/purpose"
+//@ import "github.com/notaryproject/notation-core-go/revocation/result"
+//@ import corex509 "github.com/notaryproject/notation-core-go/x509"
+
+//@ func FindExtensionByOID(extensions, oid)
+//@   ensures [nil] result == nil <==> (forall k :: 0 <= k && k < len(extensions) ==> !extensions[k].Id.Equal(oid))
+//@   ensures [first] result != nil ==> exists k :: 0 <= k && k < len(extensions) && result == elemptr(extensions, k) && extensions[k].Id.Equal(oid) && (forall j :: 0 <= j && j < k ==> !extensions[j].Id.Equal(oid))
+//@   pure
